@@ -35,13 +35,14 @@ var c20Endings = []string{
 	"context-expiry+CloseNow/slow-transport-close", "closeread-context-expiry+CloseNow/slow-transport-close", "protocol-error+Close/slow-transport-close",
 	"Close-silent-peer", "concurrent-Close+CloseNow-slow-peer", "concurrent-Close+Close-slow-peer", "netconn-wrong-type+ncClose-slow-peer", "closeread-data+CloseNow",
 	"closeread-cancelled-while-closing+CloseNow/lingering-write", "closeread-closing+CloseNow/lingering-write+transport-close-error",
+	"application-write-in-progress+CloseNow/lingering-write", "application-write-in-progress+Close/lingering-write",
 }
 
 func init() {
 	fw.Register(&fw.Prop{
 		ID:    "C20",
 		Level: "exploration",
-		Rule: "cases = histories from an operation grammar (reads, writes, streamed writes, pings, CloseRead, NetConn with timers, abandoned half-read readers and unclosed writers, peer pings, cancelled reads) on either role, ended in 25 ways (Close / CloseNow / invalid Close arguments / repeated and concurrent closers against a slow peer / peer close, protocol error, context expiry, transport EOF or reset followed by Close or CloseNow / NetConn policy close / CloseNow while the CloseRead goroutine is stuck in a transport write that lingers after the close, with and without an error from the transport's Close). " +
+		Rule: "cases = histories from an operation grammar (reads, writes, streamed writes, pings, CloseRead, NetConn with timers, abandoned half-read readers and unclosed writers, peer pings, cancelled reads) on either role, ended in 27 ways (Close / CloseNow / invalid Close arguments / repeated and concurrent closers against a slow peer / peer close, protocol error, context expiry, transport EOF or reset followed by Close or CloseNow / NetConn policy close / CloseNow while the CloseRead goroutine is stuck in a transport write that lingers after the close, with and without an error from the transport's Close). " +
 			"Oracle: once the last Close/CloseNow has returned and the harness has joined its own goroutines, the goroutine profile must contain no goroutine with a frame in, or created by, nhooyr.io/websocket (300 ms grace for goroutines that are unwinding); histories run one at a time per process so a leak is attributed to its history; in half of the histories the long-lived context handed to CloseRead / NetConn is a Context type of the application's own, and no context-package watcher goroutine for a child derived from it may survive the close. distinct key = (role, ending, set of operation kinds)",
 		Gen:         c20Gen,
 		Race:        func(t string) bool { return t == "thorough" },
@@ -397,6 +398,27 @@ func c20Run(r *fw.R, d c20Desc) {
 		}
 		cc()
 		c.CloseNow()
+	case "application-write-in-progress+CloseNow/lingering-write", "application-write-in-progress+Close/lingering-write":
+		// an application goroutine is inside Write, stuck in a transport write that comes back only a while after
+		// the transport has been closed: whatever the closer has to wait for, it has waited for when it returns
+		libEnd.Linger = 400 * time.Millisecond
+		libEnd.StallWrites(true)
+		wg.Add(1)
+		go func() {
+			defer wg.Done()
+			c.Write(base, websocket.MessageBinary, make([]byte, 20000))
+		}()
+		for i := 0; i < 2000 && libEnd.Stalled() == 0; i++ {
+			time.Sleep(time.Millisecond)
+		}
+		if libEnd.Stalled() > 0 {
+			r.Count("closers_called_while_an_application_write_lingers", 1)
+		}
+		if strings.Contains(d.Ending, "+CloseNow") {
+			c.CloseNow()
+		} else {
+			c.Close(websocket.StatusNormalClosure, "")
+		}
 	case "closeread-data+CloseNow":
 		if !closeRead && nc == nil {
 			c.CloseRead(libBase)
@@ -413,7 +435,7 @@ func c20Run(r *fw.R, d c20Desc) {
 			if !strings.Contains(g, "created by nhooyr.io/websocket") {
 				continue // harness goroutines inside library calls are joined below
 			}
-			if strings.Contains(g, "runtime.gopark") || strings.Contains(g, "[select") || strings.Contains(g, "[chan receive") || strings.Contains(g, "[sleep") || strings.Contains(g, "[IO wait") || strings.Contains(g, "[semacquire") || strings.Contains(g, "[sync.") {
+			if strings.Contains(g, "runtime.gopark") || strings.Contains(g, "[select") || strings.Contains(g, "[chan receive") || strings.Contains(g, "[chan send") || strings.Contains(g, "[sleep") || strings.Contains(g, "[IO wait") || strings.Contains(g, "[semacquire") || strings.Contains(g, "[sync.") {
 				parked = append(parked, g)
 			}
 		}
